@@ -23,7 +23,7 @@ Section ctl_steps.
                          outputs := <[d0 := v]> (outputs (ctl s)); remaining := remaining (ctl s);
                          seen := seen (ctl s); completed := completed (ctl s); purged := purged (ctl s) |};
                store := store s; wq := wq s; xfers := xfers s; fetches := fetches s; purges := purges s;
-               pool := ps; dispatched := dispatched s; finished := finished s |}.
+               pool := ps; dispatched := dispatched s; finished := finished s; published := published s |}.
   Proof.
     intros Hinv Hrm.
     pose proof (list_remove_in _ _ _ Hrm) as Hx.
@@ -48,11 +48,11 @@ Section ctl_steps.
     - intros w d Hin. by apply (i_pub _ _ _ Hinv), Hsub.
     - pose proof (i_pub_nodup _ _ _ Hinv) as H. by rewrite Hpub in H.
     - intros h d Hin. by apply (i_xev _ _ _ Hinv), Hsub.
-    - apply (i_store_fin _ _ _ Hinv).
+    - apply (i_store_pub _ _ _ Hinv).
     - apply (i_store_h2d _ _ _ Hinv).
     - apply (i_avail_store _ _ _ Hinv).
     - apply (i_seen_avail _ _ _ Hinv).
-    - apply (i_seen_fin _ _ _ Hinv).
+    - apply (i_seen_pub _ _ _ Hinv).
     - apply (i_purges _ _ _ Hinv).
     - intros d Hd. destruct (i_pq _ _ _ Hinv _ Hd) as (? & ? & Hext). repeat split; try done.
       intros He. destruct (decide (d = d0)) as [->|Hne].
@@ -84,7 +84,10 @@ Section ctl_steps.
       + rewrite lookup_insert_ne in Ho by done. destruct (i_out _ _ _ Hinv _ _ Ho) as (? & ? & ? & ? & ?).
         repeat split; auto.
     - apply (i_phase _ _ _ Hinv).
-    - intros t d Ht Hd. destruct (i_fin_ev _ _ _ Hinv _ _ Ht Hd) as [?|Hp]; [by left|right]. by rewrite Hpub in Hp.
+    - intros d Hd. destruct (i_pub_ev _ _ _ Hinv _ Hd) as [?|Hp]; [by left|right]. by rewrite Hpub in Hp.
+    - apply (i_fin_pub _ _ _ Hinv).
+    - apply (i_published _ _ _ Hinv).
+    - apply (i_running _ _ _ Hinv).
     - apply (i_seen_ext _ _ _ Hinv).
     - intros d Hd. destruct (decide (d = d0)) as [->|Hne]; [right; right; by rewrite lookup_insert|].
       rewrite lookup_insert_ne by done. destruct (i_fetched _ _ _ Hinv _ Hd) as [?|[Hp|?]]; [by left| |by right; right].
@@ -127,10 +130,10 @@ Section ctl_steps.
     NoDup (pub_ds ps) → NoDup (pay_ds ps) →
     (∀ d, d ∈ pub_ds (pool s) → d ∈ pub_ds ps ∨ d = d0) →
     (∀ d, d ∈ pay_ds (pool s) → d ∈ pay_ds ps) →
-    d0.1 ∈ finished s → (d0 ∉ purged (ctl s) → (h0, d0) ∈ store s) →
+    d0 ∈ published s → (d0 ∉ purged (ctl s) → (h0, d0) ∈ store s) →
     Inv J E {| ctl := publish_c J (ctl s) h0 d0; store := store s; wq := wq s; xfers := xfers s;
                fetches := fetches s; purges := purges s; pool := ps; dispatched := dispatched s;
-               finished := finished s |}.
+               finished := finished s; published := published s |}.
   Proof.
     intros Hinv Hsub Hlast Hnd1 Hnd2 Hpubk Hpayk Hfin0 Hst0.
     destruct (publish_fields (ctl s) h0 d0) as (Ec & Ei & Eo & Ed & Ept & Epq & Efq & Efe & Eou & Ese & Eco & Epu).
@@ -150,14 +153,14 @@ Section ctl_steps.
     - intros w d Hin. rewrite Eong. by apply (i_pub _ _ _ Hinv), Hsub.
     - done.
     - intros h d Hin. by apply (i_xev _ _ _ Hinv), Hsub.
-    - apply (i_store_fin _ _ _ Hinv).
+    - apply (i_store_pub _ _ _ Hinv).
     - intros h d Hin Hp. apply HmonoS. by apply (i_store_h2d _ _ _ Hinv).
     - intros d h Hd Hp. destruct (decide ((d, h) = (d0, h0))) as [[= -> ->]|Hne]; [by apply Hst0|].
       rewrite lookup_insert_ne in Hd by done. by apply (i_avail_store _ _ _ Hinv).
     - intros d Hd Hp. apply elem_of_union in Hd as [Hd|Hd].
       + apply elem_of_singleton in Hd as ->. exists h0. by rewrite lookup_insert.
       + destruct (i_seen_avail _ _ _ Hinv _ Hd Hp) as [h Hh]. exists h. by apply (Hmono _ true).
-    - intros d Hd. apply elem_of_union in Hd as [Hd|Hd]; [by apply elem_of_singleton in Hd as ->|by apply (i_seen_fin _ _ _ Hinv)].
+    - intros d Hd. apply elem_of_union in Hd as [Hd|Hd]; [by apply elem_of_singleton in Hd as ->|by apply (i_seen_pub _ _ _ Hinv)].
     - apply (i_purges _ _ _ Hinv).
     - intros d Hd. destruct (i_pq _ _ _ Hinv _ Hd) as (? & ? & Hext). rewrite has_value_publish. repeat split; auto. set_solver.
     - intros t Ht Hc sd Hsd. rewrite Eptr. by apply (i_ptr _ _ _ Hinv).
@@ -226,8 +229,11 @@ Section ctl_steps.
         * intros Hx. destruct (decide (x = d0)) as [?|Hnx]; [done|]. exfalso. clear -Hx Hemp Hnx. set_solver.
         * intros ->. destruct (decide (d0 ∈ X)) as [?|Hnd]; [done|]. exfalso. apply Hne. clear -Hemp Hnd. set_solver.
       + right. right. exists w. by rewrite Eong.
-    - (* i_fin_ev *) intros t d Ht Hd. destruct (i_fin_ev _ _ _ Hinv _ _ Ht Hd) as [?|Hp]; [left; set_solver|].
+    - (* i_pub_ev *) intros d Hd. destruct (i_pub_ev _ _ _ Hinv _ Hd) as [?|Hp]; [left; set_solver|].
       destruct (Hpubk _ Hp) as [?|Heq]; [by right|left; subst; set_solver].
+    - apply (i_fin_pub _ _ _ Hinv).
+    - apply (i_published _ _ _ Hinv).
+    - apply (i_running _ _ _ Hinv).
     - (* i_seen_ext *) intros d Hd He. unfold consider_fetch.
       match goal with |- context [if ?b then _ else _] => destruct b eqn:Hcond end.
       + destruct (decide (d = d0)) as [->|Hne]; [right; by rewrite lookup_insert|]. rewrite lookup_insert_ne by done.
@@ -253,12 +259,12 @@ Section ctl_steps.
     last_out J t0 ∈ seen (ctl s) →
     complete_c J (ctl s) w0 t0 = Next c2 →
     Inv J E {| ctl := c2; store := store s; wq := wq s; xfers := xfers s; fetches := fetches s;
-               purges := purges s; pool := ps; dispatched := dispatched s; finished := finished s |}.
+               purges := purges s; pool := ps; dispatched := dispatched s; finished := finished s; published := published s |}.
   Proof.
     intros Hinv Hrm Hseenlast Hc.
     pose proof (list_remove_in _ _ _ Hrm) as Hx.
-    destruct (i_pub _ _ _ Hinv _ _ Hx) as (Hfin0 & _ & Htask0 & Hong0 & h0 & Hh0 & _). simpl in Hfin0, Htask0, Hong0.
-    specialize (Hong0 eq_refl).
+    destruct (i_pub _ _ _ Hinv _ _ Hx) as (_ & _ & Htask0 & Hong0 & h0 & Hh0 & _). simpl in Htask0, Hong0.
+    destruct (Hong0 eq_refl) as [Hong0' Hfin0]. clear Hong0. rename Hong0' into Hong0.
     destruct (i_ong _ _ _ Hinv _ _ Hong0) as (Hnc0 & Hni0 & Hdisp0 & _ & _).
     destruct (i_disp _ _ _ Hinv _ _ Hdisp0) as (_ & _ & Hseen0 & _).
     assert (Hsub : ∀ y, y ∈ ps → y ∈ pool s) by (intros y Hy; rewrite (list_remove_elem _ _ _ y Hrm); auto).
@@ -319,16 +325,17 @@ Section ctl_steps.
       + destruct Hcase as [?|[? Hp]]; [by left|]. right. split; [done|].
         rewrite (list_remove_elem _ _ _ _ Hrm) in Hp. destruct Hp as [Heq|?]; [|done].
         exfalso. apply Hne. injection Heq as _ Heq. unfold last_out in Heq. congruence.
-    - (* i_pub *) intros w d Hin. destruct (i_pub _ _ _ Hinv _ _ (Hsub _ Hin)) as (? & ? & ? & Hl & Hst). repeat split; auto.
-      intros Heq. specialize (Hl Heq). rewrite Eong. destruct (decide (w0 = w)) as [<-|Hne]; [|done].
-      rewrite HX0' in Hl. assert (d.1 ≠ t0); [|set_solver]. intros Hd1. apply (Hgone w0). rewrite <- Hd1, <- Heq. done.
+    - (* i_pub *) intros w d Hin. destruct (i_pub _ _ _ Hinv _ _ (Hsub _ Hin)) as (? & ? & ? & Hl & Hst).
+      split; [done|]. split; [done|]. split; [done|]. split; [|done].
+      intros Heq. destruct (Hl Heq) as [Hl1 Hl2]. split; [|done]. rewrite Eong. destruct (decide (w0 = w)) as [<-|Hne]; [|done].
+      rewrite HX0' in Hl1. assert (d.1 ≠ t0); [|set_solver]. intros Hd1. apply (Hgone w0). rewrite <- Hd1, <- Heq. done.
     - done.
     - intros h d Hin. by apply (i_xev _ _ _ Hinv), Hsub.
-    - apply (i_store_fin _ _ _ Hinv).
+    - apply (i_store_pub _ _ _ Hinv).
     - apply (i_store_h2d _ _ _ Hinv).
     - apply (i_avail_store _ _ _ Hinv).
     - apply (i_seen_avail _ _ _ Hinv).
-    - apply (i_seen_fin _ _ _ Hinv).
+    - apply (i_seen_pub _ _ _ Hinv).
     - apply (i_purges _ _ _ Hinv).
     - (* i_pq *) intros d Hd. rewrite Hpt2.
       assert (d ∈ purged (ctl s) ∪ pqueue (ctl s) ∨ d ∈ topurge) as [Hold|Hnew] by set_solver.
@@ -371,8 +378,11 @@ Section ctl_steps.
       destruct (i_phase _ _ _ Hinv _ Ht Hnc') as [?|[?|[w Hw]]]; [by left|right; by left|].
       right. right. exists w. rewrite Eong. destruct (decide (w0 = w)) as [<-|?]; [|done].
       unfold ong in Hw. rewrite HX0 in Hw. simpl in Hw. set_solver.
-    - (* i_fin_ev *) intros t d Ht Hd. destruct (i_fin_ev _ _ _ Hinv _ _ Ht Hd) as [?|Hp]; [by left|].
+    - (* i_pub_ev *) intros d Hd. destruct (i_pub_ev _ _ _ Hinv _ Hd) as [?|Hp]; [by left|].
       rewrite Hpub in Hp. apply elem_of_cons in Hp as [->|?]; [by left|by right].
+    - apply (i_fin_pub _ _ _ Hinv).
+    - apply (i_published _ _ _ Hinv).
+    - apply (i_running _ _ _ Hinv).
     - apply (i_seen_ext _ _ _ Hinv).
     - intros d Hd. destruct (i_fetched _ _ _ Hinv _ Hd) as [?|[Hp|?]]; [by left| |by right; right].
       right. left. by rewrite Hpay in Hp.
@@ -392,7 +402,7 @@ Section ctl_steps.
     Inv J E {| ctl := c'; store := store s; wq := <[w := t]> (wq s);
                xfers := xfers s ++ ((λ p, (p.1, p.2, h)) <$> map_to_list srcs);
                fetches := fetches s; purges := purges s; pool := pool s;
-               dispatched := dispatched s ++ [(w, t)]; finished := finished s |}.
+               dispatched := dispatched s ++ [(w, t)]; finished := finished s; published := published s |}.
   Proof.
     intros Hinv Ha Hwq. unfold assign_c in Ha.
     destruct (e_host E !! w) as [h'|] eqn:Hh; [|done].
@@ -444,16 +454,17 @@ Section ctl_steps.
         left. by rewrite lookup_insert.
       + destruct (i_ong _ _ _ Hinv _ _ Ho) as (? & ? & ? & ? & Hcase). repeat split; auto; [set_solver|apply elem_of_app; by left|].
         destruct Hcase as [?|?]; [left; by rewrite lookup_insert_ne|by right].
-    - (* i_pub *) intros w' d Hin. destruct (i_pub _ _ _ Hinv _ _ Hin) as (? & ? & ? & Hl & Hst). repeat split; auto.
-      intros Heq. specialize (Hl Heq). rewrite Eong. destruct (decide (w = w')) as [<-|Hne]; [|done].
-      unfold ong in Hong0. unfold ong in Hl. rewrite Hong0 in Hl. set_solver.
+    - (* i_pub *) intros w' d Hin. destruct (i_pub _ _ _ Hinv _ _ Hin) as (? & ? & ? & Hl & Hst).
+      split; [done|]. split; [done|]. split; [done|]. split; [|done].
+      intros Heq. destruct (Hl Heq) as [Hl1 Hl2]. split; [|done]. rewrite Eong. destruct (decide (w = w')) as [<-|Hne]; [|done].
+      unfold ong in Hong0. unfold ong in Hl1. rewrite Hong0 in Hl1. set_solver.
     - apply (i_pub_nodup _ _ _ Hinv).
     - apply (i_xev _ _ _ Hinv).
-    - apply (i_store_fin _ _ _ Hinv).
+    - apply (i_store_pub _ _ _ Hinv).
     - intros h2 d Hin Hp. apply prep_union_is_Some. left. by apply (i_store_h2d _ _ _ Hinv).
     - intros d h2 Hd Hp. apply prep_union_true in Hd. by apply (i_avail_store _ _ _ Hinv).
     - intros d Hd Hp. destruct (i_seen_avail _ _ _ Hinv _ Hd Hp) as [h2 Hh2]. exists h2. by apply prep_union_true.
-    - apply (i_seen_fin _ _ _ Hinv).
+    - apply (i_seen_pub _ _ _ Hinv).
     - apply (i_purges _ _ _ Hinv).
     - apply (i_pq _ _ _ Hinv).
     - apply (i_ptr _ _ _ Hinv).
@@ -483,7 +494,11 @@ Section ctl_steps.
           -- assert (d ∈ dom srcs) as Hds by (apply Hneeds; done). apply elem_of_dom in Hds as [src Hsrc'].
              right. left. exists src. apply elem_of_app. right. apply new_xfers_spec. eauto.
           -- right. right. exists w. apply outs_spec in Hd as Hd'. destruct Hd' as [Hd1 _].
-             destruct d as [a b]. simpl in *. subst a. rewrite lookup_insert. done.
+             destruct d as [a b]. simpl in *. subst a. rewrite lookup_insert. repeat split; auto.
+             intros Hpubd. destruct (i_published _ _ _ Hinv _ Hpubd) as (_ & _ & [Hf|[w2 Hw2]]); simpl in *.
+             ++ by apply Hnfin.
+             ++ destruct (i_wq _ _ _ Hinv _ _ Hw2) as (_ & Ho2 & _). destruct (i_ong _ _ _ Hinv _ _ Ho2) as (_ & _ & Hd2 & _).
+                apply Hndisp. apply elem_of_list_fmap. by exists (w2, t).
     - (* i_xfer *) intros d src tgt Hin. apply elem_of_app in Hin as [Hin|Hin].
       + destruct (i_xfer _ _ _ Hinv _ _ _ Hin) as (? & ? & ? & ? & ? & w' & t' & Hw' & ? & ?). repeat split; auto.
         * by apply prep_union_true.
@@ -507,8 +522,8 @@ Section ctl_steps.
       + rewrite lookup_insert in Hw'. injection Hw' as <-. assert (h2 = h') as -> by congruence.
         destruct (ds2host (ctl s) !! (d, h')) as [b|] eqn:Hold.
         * destruct (Hlive _ Hd) as [Hp _].
-          destruct (i_prep _ _ _ Hinv d h' ltac:(eauto) Hp) as [?|[[src ?]|(w' & Hw' & ? & ?)]]; [by left|right; exists src; apply elem_of_app; by left|].
-          exfalso. destruct (i_wq _ _ _ Hinv _ _ Hw') as (_ & _ & _ & Hnf'). apply Hnf'. apply (i_seen_fin _ _ _ Hinv). by apply Hseen.
+          destruct (i_prep _ _ _ Hinv d h' ltac:(eauto) Hp) as [?|[[src ?]|(w' & Hw' & ? & ? & Hnpub)]]; [by left|right; exists src; apply elem_of_app; by left|].
+          exfalso. apply Hnpub. apply (i_seen_pub _ _ _ Hinv). by apply Hseen.
         * assert (d ∈ dom srcs) as Hds by (apply Hneeds; done). apply elem_of_dom in Hds as [src Hsrc'].
           right. exists src. apply elem_of_app. right. apply new_xfers_spec. eauto.
       + rewrite lookup_insert_ne in Hw' by done. destruct (i_inputs _ _ _ Hinv _ _ _ Hw' Hh2 _ Hd) as [?|[src ?]]; [by left|].
@@ -524,7 +539,17 @@ Section ctl_steps.
       + destruct (i_phase _ _ _ Hinv _ Ht' Hnc') as [?|[?|[w' Hw']]]; [left; set_solver|right; by left|].
         right. right. exists w'. rewrite Eong. destruct (decide (w = w')) as [<-|?]; [|done].
         unfold ong in Hong0. unfold ong in Hw'. rewrite Hong0 in Hw'. set_solver.
-    - apply (i_fin_ev _ _ _ Hinv).
+    - apply (i_pub_ev _ _ _ Hinv).
+    - apply (i_fin_pub _ _ _ Hinv).
+    - intros d Hd. destruct (i_published _ _ _ Hinv _ Hd) as (? & ? & [?|[w' Hw']]); repeat split; auto.
+      right. exists w'. rewrite lookup_insert_ne; [done|]. intros <-. congruence.
+    - (* i_running *) intros w' t' Hw'. destruct (decide (w = w')) as [<-|Hne].
+      + rewrite lookup_insert in Hw'. injection Hw' as <-. intros Hpubd.
+        destruct (i_published _ _ _ Hinv _ Hpubd) as (_ & _ & [Hf|[w2 Hw2]]); simpl in *.
+        * by apply Hnfin.
+        * destruct (i_wq _ _ _ Hinv _ _ Hw2) as (_ & Ho2 & _). destruct (i_ong _ _ _ Hinv _ _ Ho2) as (_ & _ & Hd2 & _).
+          apply Hndisp. apply elem_of_list_fmap. by exists (w2, t).
+      + rewrite lookup_insert_ne in Hw' by done. by apply (i_running _ _ _ Hinv _ _ Hw').
     - apply (i_seen_ext _ _ _ Hinv).
     - apply (i_fetched _ _ _ Hinv).
   Qed.
@@ -543,7 +568,7 @@ Section ctl_steps.
   Lemma inv_flush s c' fl pl :
     Inv J E s → flush_c J (ctl s) = (c', fl, pl) →
     Inv J E {| ctl := c'; store := store s; wq := wq s; xfers := xfers s; fetches := fetches s ++ fl;
-               purges := purges s ++ pl; pool := pool s; dispatched := dispatched s; finished := finished s |}.
+               purges := purges s ++ pl; pool := pool s; dispatched := dispatched s; finished := finished s; published := published s |}.
   Proof.
     intros Hinv Hf. unfold flush_c in Hf. rewrite (after_fetch_empty s Hinv) in Hf.
     rewrite (right_id_L ∅ (∪)) in Hf.
@@ -561,15 +586,16 @@ Section ctl_steps.
     - apply (i_wq _ _ _ Hinv).
     - intros w t h Hw Hh d Hd Hp. apply drop_lookup_is_Some. split; [|set_solver]. eapply (i_wq_outs _ _ _ Hinv); eauto. set_solver.
     - apply (i_ong _ _ _ Hinv).
-    - intros w d Hin. destruct (i_pub _ _ _ Hinv _ _ Hin) as (? & ? & ? & ? & h & ? & Hst). repeat split; auto.
+    - intros w d Hin. destruct (i_pub _ _ _ Hinv _ _ Hin) as (? & ? & ? & ? & h & ? & Hst).
+      split; [done|]. split; [done|]. split; [done|]. split; [done|].
       exists h. split; [done|]. intros Hp. apply Hst. set_solver.
     - apply (i_pub_nodup _ _ _ Hinv).
     - intros h d Hin. destruct (i_xev _ _ _ Hinv _ _ Hin) as [? Hst]. split; [done|]. intros Hp. apply Hst. set_solver.
-    - apply (i_store_fin _ _ _ Hinv).
+    - apply (i_store_pub _ _ _ Hinv).
     - intros h d Hin Hp. apply drop_lookup_is_Some. split; [|set_solver]. apply (i_store_h2d _ _ _ Hinv); [done|set_solver].
     - intros d h Hd Hp. apply drop_lookup in Hd as [Hd _]. apply (i_avail_store _ _ _ Hinv); [done|set_solver].
     - intros d Hd Hp. destruct (i_seen_avail _ _ _ Hinv _ Hd ltac:(set_solver)) as [h Hh]. exists h. apply drop_lookup. split; [done|set_solver].
-    - apply (i_seen_fin _ _ _ Hinv).
+    - apply (i_seen_pub _ _ _ Hinv).
     - intros h d Hin. apply elem_of_app in Hin as [Hin|Hin]; [pose proof (i_purges _ _ _ Hinv _ _ Hin); set_solver|].
       apply Hpl in Hin. set_solver.
     - intros d Hd. rewrite Hptr. apply (i_pq _ _ _ Hinv). set_solver.
@@ -605,7 +631,10 @@ Section ctl_steps.
       apply elem_of_list_fmap in Hin as ([d2 s2] & -> & Hin). apply elem_of_map_to_list in Hin. simpl in Ho.
       destruct (i_fq _ _ _ Hinv _ _ Hin) as (_ & Ho' & _). congruence.
     - apply (i_phase _ _ _ Hinv).
-    - apply (i_fin_ev _ _ _ Hinv).
+    - apply (i_pub_ev _ _ _ Hinv).
+    - apply (i_fin_pub _ _ _ Hinv).
+    - apply (i_published _ _ _ Hinv).
+    - apply (i_running _ _ _ Hinv).
     - intros d Hd He. left. destruct (i_seen_ext _ _ _ Hinv _ Hd He) as [?|Hq]; [set_solver|].
       apply elem_of_union. right. by apply elem_of_dom.
     - intros d Hd. rewrite fmap_app. apply elem_of_union in Hd as [Hd|Hd].
